@@ -318,8 +318,36 @@ func (x *c15ctx) runCase(c *c15Case) *c15Obs {
 		return fail("aux: %v", err)
 	}
 	pkgDir := filepath.Join(root, c.In.PkgRel)
-	inputAbs := filepath.Join(pkgDir, c.In.Input)
 	o.SetupAbs = filepath.Join(pkgDir, "setup.go")
+	if c.Spelling == "symlink" {
+		// the input file is a symbolic link into ANOTHER package directory: a second directory holds
+		// copies of the sibling files and a link to the setup file; everything designated (output, log)
+		// is designated by the spelling of the input, i.e. lies in the second directory
+		lnkDir := pkgDir + "_lnk"
+		if _, err := os.Lstat(filepath.Join(pkgDir, c.In.Input)); err == nil {
+			if err := os.MkdirAll(lnkDir, 0o755); err != nil {
+				return fail("link dir: %v", err)
+			}
+			ents, _ := os.ReadDir(pkgDir)
+			for _, en := range ents {
+				if en.IsDir() || en.Name() == c.In.Input {
+					continue
+				}
+				data, err := os.ReadFile(filepath.Join(pkgDir, en.Name()))
+				if err == nil {
+					err = os.WriteFile(filepath.Join(lnkDir, en.Name()), data, 0o644)
+				}
+				if err != nil {
+					return fail("link dir copy: %v", err)
+				}
+			}
+			if err := os.Symlink(filepath.Join("..", filepath.Base(pkgDir), c.In.Input), filepath.Join(lnkDir, c.In.Input)); err != nil {
+				return fail("symlink: %v", err)
+			}
+			pkgDir = lnkDir
+		}
+	}
+	inputAbs := filepath.Join(pkgDir, c.In.Input)
 
 	// spelling of input and -out
 	outName := c15AltOut
@@ -945,7 +973,7 @@ func RunC15(e *core.Env) int {
 					if rnd.Intn(4) == 0 {
 						c.Sentinel = "garbage"
 					}
-					c.Spelling = []string{"rel", "rel", "abs", "root", "sub"}[rnd.Intn(5)]
+					c.Spelling = []string{"rel", "rel", "abs", "root", "sub", "symlink"}[rnd.Intn(6)]
 					if st == "unwritable" {
 						c.Mech = []string{"uid", "uid+present", "chattr-dir"}[(bits+r+rnd.Intn(3))%3]
 					}
